@@ -80,6 +80,10 @@ package rest
 //@   is r != nil && (forall g string :: {g in r.ConfigGroups} (g in r.ConfigGroups) ==> r.ConfigGroups[g] != nil && r.ConfigGroups[g].Databases != nil) &&
 //@      (forall g string, cg *RegistryConfigGroup, d string :: {g in r.ConfigGroups, d in cg.Databases} entAt(r, g, cg, d) ==> cg.Databases[d] != nil)
 
+// the entry is not the marker of an in-progress (or interrupted) delete; such a marker owns no collection
+//@ pred notDel(e *RegistryDatabase) bool
+//@   is e.Version != deletedDatabaseVersion
+
 // the config shares no collection with the registry version whose recorded scopes are x; nothing recorded = the
 // default collection only, on either side (as the code does)
 //@ pred noCflV(scopes ScopesConfig, x RegistryScopes) bool
@@ -108,14 +112,14 @@ package rest
 //@   loop 2 invariant[none] forall g string, cg *RegistryConfigGroup, d string :: {g in r.ConfigGroups, d in cg.Databases} (g in #visited1) && cg != configGroup && entAt(r, g, cg, d) && d != dbName ==> cg.Databases[d].MetadataID != metadataID
 //@   loop 2 invariant[cur]  forall d string :: {d in configGroup.Databases} (d in #visited2) && d != dbName ==> configGroup.Databases[d].MetadataID != metadataID
 
-// getCollectionConflicts: empty result <==> no other-named entry (of any config group) has, in its current version,
-// a collection of the config.
+// getCollectionConflicts: empty result <==> no other-named entry (of any config group) that is not a delete marker
+// has, in its current version, a collection of the config; a conflict is reported only with such an entry.
 //@ pred noCurCfl(r *GatewayRegistry, dbName string, scopes ScopesConfig) bool
-//@   is forall g string, cg *RegistryConfigGroup, d string, e *RegistryDatabase :: {tagE(g, cg, d, e)} entIs(r, g, cg, d, e) && d != dbName ==> noCflC(scopes, e.Scopes)
+//@   is forall g string, cg *RegistryConfigGroup, d string, e *RegistryDatabase :: {tagE(g, cg, d, e)} entIs(r, g, cg, d, e) && d != dbName && notDel(e) ==> noCflC(scopes, e.Scopes)
 
 // some other-named entry has, in its current version, a collection of the config
 //@ pred someCurCfl(r *GatewayRegistry, dbName string, scopes ScopesConfig) bool
-//@   is exists g string, cg *RegistryConfigGroup, d string, e *RegistryDatabase :: {g in r.ConfigGroups, d in cg.Databases, e.Scopes} entIs(r, g, cg, d, e) && d != dbName && !noCflC(scopes, e.Scopes)
+//@   is exists g string, cg *RegistryConfigGroup, d string, e *RegistryDatabase :: {g in r.ConfigGroups, d in cg.Databases, e.Scopes} entIs(r, g, cg, d, e) && d != dbName && notDel(e) && !noCflC(scopes, e.Scopes)
 
 //@ func GatewayRegistry.getCollectionConflicts
 //@   safety on
@@ -125,21 +129,23 @@ package rest
 //@   loop 1 invariant[fresh] activeConflicts != nil
 //@   loop * invariant[len]   len(activeConflicts) >= 0 && (forall k base.ScopeAndCollectionName :: {k in activeConflicts} (k in activeConflicts) ==> len(activeConflicts) > 0)
 //@   loop * invariant[only]  len(activeConflicts) > 0 ==> someCurCfl(r, dbName, scopes)
-//@   loop 1 invariant[none]  len(activeConflicts) == 0 ==> (forall g string, cg *RegistryConfigGroup, d string, e *RegistryDatabase :: {tagE(g, cg, d, e)} (g in #visited1) && entIs(r, g, cg, d, e) && d != dbName ==> noCflV(scopes, e.Scopes))
+//@   loop 1 invariant[none]  len(activeConflicts) == 0 ==> (forall g string, cg *RegistryConfigGroup, d string, e *RegistryDatabase :: {tagE(g, cg, d, e)} (g in #visited1) && entIs(r, g, cg, d, e) && d != dbName && notDel(e) ==> noCflV(scopes, e.Scopes))
 //@   loop 2 invariant[ctx]   activeConflicts != nil && configGroup != nil && (exists g string :: {g in r.ConfigGroups} (g in r.ConfigGroups) && r.ConfigGroups[g] == configGroup)
-//@   loop 2 invariant[none]  len(activeConflicts) == 0 ==> (forall g string, cg *RegistryConfigGroup, d string, e *RegistryDatabase :: {tagE(g, cg, d, e)} (g in #visited1) && cg != configGroup && entIs(r, g, cg, d, e) && d != dbName ==> noCflV(scopes, e.Scopes))
-//@   loop 2 invariant[cur]   len(activeConflicts) == 0 ==> (forall d string, e *RegistryDatabase :: {d in configGroup.Databases, e.Scopes} (d in #visited2) && e == configGroup.Databases[d] && d != dbName ==> noCflV(scopes, e.Scopes))
+//@   loop 2 invariant[none]  len(activeConflicts) == 0 ==> (forall g string, cg *RegistryConfigGroup, d string, e *RegistryDatabase :: {tagE(g, cg, d, e)} (g in #visited1) && cg != configGroup && entIs(r, g, cg, d, e) && d != dbName && notDel(e) ==> noCflV(scopes, e.Scopes))
+//@   loop 2 invariant[cur]   len(activeConflicts) == 0 ==> (forall d string, e *RegistryDatabase :: {d in configGroup.Databases, e.Scopes} (d in #visited2) && e == configGroup.Databases[d] && d != dbName && notDel(e) ==> noCflV(scopes, e.Scopes))
 //@   loop 3 invariant[ctx]   activeConflicts != nil && configGroup != nil && (exists g string :: {g in r.ConfigGroups} (g in r.ConfigGroups) && r.ConfigGroups[g] == configGroup) && (registryDbName in configGroup.Databases) && database == configGroup.Databases[registryDbName] && registryDbName != dbName
-//@   loop 3 invariant[none]  len(activeConflicts) == 0 ==> (forall g string, cg *RegistryConfigGroup, d string, e *RegistryDatabase :: {tagE(g, cg, d, e)} (g in #visited1) && cg != configGroup && entIs(r, g, cg, d, e) && d != dbName ==> noCflV(scopes, e.Scopes))
-//@   loop 3 invariant[cur]   len(activeConflicts) == 0 ==> (forall d string, e *RegistryDatabase :: {d in configGroup.Databases, e.Scopes} (d in #visited2) && e == configGroup.Databases[d] && d != dbName && d != registryDbName ==> noCflV(scopes, e.Scopes))
+//@   loop 3 invariant[none]  len(activeConflicts) == 0 ==> (forall g string, cg *RegistryConfigGroup, d string, e *RegistryDatabase :: {tagE(g, cg, d, e)} (g in #visited1) && cg != configGroup && entIs(r, g, cg, d, e) && d != dbName && notDel(e) ==> noCflV(scopes, e.Scopes))
+//@   loop 3 invariant[cur]   len(activeConflicts) == 0 ==> (forall d string, e *RegistryDatabase :: {d in configGroup.Databases, e.Scopes} (d in #visited2) && e == configGroup.Databases[d] && d != dbName && d != registryDbName && notDel(e) ==> noCflV(scopes, e.Scopes))
+//@   loop 3 invariant[not-a-delete-marker] notDel(database)   // conflicts are only ever computed against (and reported for) an entry that is not a delete marker
 //@   loop 3 invariant[this]  len(activeConflicts) == 0 ==> #index == -1
 
-// getPreviousConflicts: empty result <==> no other-named entry has, in the previous version it keeps while an update
-// is in flight, a collection of the config; every returned pair names such an entry.
+// getPreviousConflicts: empty result ==> no other-named entry that is not a delete marker has, in the previous version
+// it keeps while an update is in flight, a collection of the config; every returned pair names such an entry (the
+// previous version kept by an in-flight delete is not a conflict).
 //@ pred noPrevCfl(r *GatewayRegistry, dbName string, scopes ScopesConfig) bool
-//@   is forall g string, cg *RegistryConfigGroup, d string, e *RegistryDatabase, p *RegistryDatabaseVersion :: {tagE(g, cg, d, e), tagP(e, p)} entIs(r, g, cg, d, e) && d != dbName && prevIs(e, p) ==> noCflC(scopes, p.Scopes)
+//@   is forall g string, cg *RegistryConfigGroup, d string, e *RegistryDatabase, p *RegistryDatabaseVersion :: {tagE(g, cg, d, e), tagP(e, p)} entIs(r, g, cg, d, e) && d != dbName && notDel(e) && prevIs(e, p) ==> noCflC(scopes, p.Scopes)
 //@ pred inFlightOther(r *GatewayRegistry, dbName string, k configGroupAndDatabase) bool
-//@   is hasDb(r, k.configGroup, k.databaseName) && k.databaseName != dbName && dbAt(r, k.configGroup, k.databaseName).PreviousVersion != nil
+//@   is hasDb(r, k.configGroup, k.databaseName) && k.databaseName != dbName && dbAt(r, k.configGroup, k.databaseName).PreviousVersion != nil && notDel(dbAt(r, k.configGroup, k.databaseName))
 
 //@ func GatewayRegistry.getPreviousConflicts
 //@   safety on
@@ -148,11 +154,11 @@ package rest
 //@   ensures[members] forall i int :: {previousConflicts[i]} 0 <= i && i < len(previousConflicts) ==> inFlightOther(r, dbName, previousConflicts[i])
 //@   loop 1 invariant[fresh]   conflictingDbs != nil
 //@   loop 1 invariant[members] forall k configGroupAndDatabase :: {k in conflictingDbs} (k in conflictingDbs) ==> inFlightOther(r, dbName, k)
-//@   loop 1 invariant[none]    (forall k configGroupAndDatabase :: {k in conflictingDbs} !(k in conflictingDbs)) ==> (forall g string, cg *RegistryConfigGroup, d string, e *RegistryDatabase, p *RegistryDatabaseVersion :: {tagE(g, cg, d, e), tagP(e, p)} (g in #visited1) && entIs(r, g, cg, d, e) && d != dbName && prevIs(e, p) ==> noCflV(scopes, p.Scopes))
+//@   loop 1 invariant[none]    (forall k configGroupAndDatabase :: {k in conflictingDbs} !(k in conflictingDbs)) ==> (forall g string, cg *RegistryConfigGroup, d string, e *RegistryDatabase, p *RegistryDatabaseVersion :: {tagE(g, cg, d, e), tagP(e, p)} (g in #visited1) && entIs(r, g, cg, d, e) && d != dbName && notDel(e) && prevIs(e, p) ==> noCflV(scopes, p.Scopes))
 //@   loop 2 invariant[ctx]     conflictingDbs != nil && configGroup != nil && (cgName in r.ConfigGroups) && r.ConfigGroups[cgName] == configGroup
 //@   loop 2 invariant[members] forall k configGroupAndDatabase :: {k in conflictingDbs} (k in conflictingDbs) ==> inFlightOther(r, dbName, k)
-//@   loop 2 invariant[none]    (forall k configGroupAndDatabase :: {k in conflictingDbs} !(k in conflictingDbs)) ==> (forall g string, cg *RegistryConfigGroup, d string, e *RegistryDatabase, p *RegistryDatabaseVersion :: {tagE(g, cg, d, e), tagP(e, p)} (g in #visited1) && g != cgName && entIs(r, g, cg, d, e) && d != dbName && prevIs(e, p) ==> noCflV(scopes, p.Scopes))
-//@   loop 2 invariant[cur]     (forall k configGroupAndDatabase :: {k in conflictingDbs} !(k in conflictingDbs)) ==> (forall d string, e *RegistryDatabase, p *RegistryDatabaseVersion :: {d in configGroup.Databases, e.PreviousVersion, p.Scopes} (d in #visited2) && e == configGroup.Databases[d] && d != dbName && prevIs(e, p) ==> noCflV(scopes, p.Scopes))
+//@   loop 2 invariant[none]    (forall k configGroupAndDatabase :: {k in conflictingDbs} !(k in conflictingDbs)) ==> (forall g string, cg *RegistryConfigGroup, d string, e *RegistryDatabase, p *RegistryDatabaseVersion :: {tagE(g, cg, d, e), tagP(e, p)} (g in #visited1) && g != cgName && entIs(r, g, cg, d, e) && d != dbName && notDel(e) && prevIs(e, p) ==> noCflV(scopes, p.Scopes))
+//@   loop 2 invariant[cur]     (forall k configGroupAndDatabase :: {k in conflictingDbs} !(k in conflictingDbs)) ==> (forall d string, e *RegistryDatabase, p *RegistryDatabaseVersion :: {d in configGroup.Databases, e.PreviousVersion, p.Scopes} (d in #visited2) && e == configGroup.Databases[d] && d != dbName && notDel(e) && prevIs(e, p) ==> noCflV(scopes, p.Scopes))
 //@   loop 3 invariant[members] forall i int :: {previousConflicts[i]} 0 <= i && i < len(previousConflicts) ==> inFlightOther(r, dbName, previousConflicts[i])
 //@   loop 3 invariant[none]    len(previousConflicts) == 0 ==> (forall k configGroupAndDatabase :: {k in #visited3} !(k in #visited3))
 
@@ -316,7 +322,7 @@ package rest
 // upsertDatabaseConfig: a rejected change leaves the registry exactly as it was; a change is accepted only if no
 // other-named entry holds one of the config's collections (current or previous version) or its metadata ID; on
 // acceptance the entry of (group, name) is a new object carrying the config's version, metadata ID and collections,
-// with the replaced entry's version kept as PreviousVersion; every other entry is untouched; Own is preserved.
+// with the replaced entry's version kept as PreviousVersion (unless the replaced entry is a delete marker); every other entry is untouched; Own is preserved.
 //@ func GatewayRegistry.upsertDatabaseConfig
 //@   safety on
 //@   requires regWF(r) && regSep(r) && prevApart(r) && r.ConfigGroups != nil && defaultsOK()
@@ -329,11 +335,13 @@ package rest
 //@   ensures[no-meta-conflict] isNilErr(err) ==> old(noMetaCfl(r, config.Name, config.MetadataID))
 //@   ensures[cur-conflict-rejected]  config != nil && !old(noCurCfl(r, config.Name, config.Scopes)) ==> !isNilErr(err)
 //@   ensures[in-flight]    forall i int :: {previousVersionConflicts[i]} 0 <= i && i < len(previousVersionConflicts) ==> inFlightOther(r, config.Name, previousVersionConflicts[i])
+//@   ensures[no-list-on-success] isNilErr(err) ==> len(previousVersionConflicts) == 0   // so the callers' `len(previousVersionConflicts) > 0` wait-and-retry branch after the error check is dead code
 //@   ensures[entry]        isNilErr(err) ==> hasDb(r, configGroupID, config.Name) && dbAt(r, configGroupID, config.Name) != nil && !old(allocated(now(dbAt(r, configGroupID, config.Name))))
 //@   ensures[version]      isNilErr(err) ==> dbAt(r, configGroupID, config.Name).Version == config.Version && dbAt(r, configGroupID, config.Name).MetadataID == config.MetadataID
 //@   ensures[collections]  isNilErr(err) ==> subOfCfgV(dbAt(r, configGroupID, config.Name).Scopes, config.Scopes)
-//@   ensures[previous]     isNilErr(err) && old(hasDb(r, configGroupID, config.Name)) ==> dbAt(r, configGroupID, config.Name).PreviousVersion != nil && !old(allocated(now(dbAt(r, configGroupID, config.Name).PreviousVersion))) && dbAt(r, configGroupID, config.Name).PreviousVersion.Version == old(dbAt(r, configGroupID, config.Name).Version) && dbAt(r, configGroupID, config.Name).PreviousVersion.Scopes == old(dbAt(r, configGroupID, config.Name).Scopes)
+//@   ensures[previous]     isNilErr(err) && old(hasDb(r, configGroupID, config.Name)) && old(notDel(dbAt(r, configGroupID, config.Name))) ==> dbAt(r, configGroupID, config.Name).PreviousVersion != nil && !old(allocated(now(dbAt(r, configGroupID, config.Name).PreviousVersion))) && dbAt(r, configGroupID, config.Name).PreviousVersion.Version == old(dbAt(r, configGroupID, config.Name).Version) && dbAt(r, configGroupID, config.Name).PreviousVersion.Scopes == old(dbAt(r, configGroupID, config.Name).Scopes)
 //@   ensures[no-previous]  isNilErr(err) && !old(hasDb(r, configGroupID, config.Name)) ==> dbAt(r, configGroupID, config.Name).PreviousVersion == nil
+//@   ensures[no-stale-delete-marker] isNilErr(err) && old(hasDb(r, configGroupID, config.Name)) && !old(notDel(dbAt(r, configGroupID, config.Name))) ==> dbAt(r, configGroupID, config.Name).PreviousVersion == nil   // replacing the marker of an interrupted delete is not an update in flight
 //@   ensures[others]       isNilErr(err) ==> keysSameBut(r, configGroupID, config.Name)
 //@   ensures[objects]      isNilErr(err) ==> entriesSame()
 //@   ensures[prevs]        isNilErr(err) ==> prevsKept(r)
@@ -420,3 +428,96 @@ package rest
 //@   ensures[own-cp-restored]    old(ownCP(r) && ownPP(r)) && old(hasDb(r, configGroupID, dbName)) && old(dbAt(r, configGroupID, dbName).PreviousVersion) != nil && old(liveV(dbAt(r, configGroupID, dbName).Version)) ==> ownCP(r)
 //@   ensures[own-cp-from-config] old(ownCP(r)) && old(hasDb(r, configGroupID, dbName)) && old(dbAt(r, configGroupID, dbName).PreviousVersion) == nil ==> ownCP(r)
 //@   ensures[own-pp]    old(ownPP(r)) ==> ownPP(r)
+
+// ---------- registry / config document disagreement: which way is it resolved (rest/config_manager.go) ----------
+//
+// Path contracts (modifies *): they fix the DECISION taken when the version recorded in the registry and the version
+// of the stored config document differ, not the storage effects. pGen (db/zz_verif_c04.go) is the generation
+// db.ParseRevID reports for a version string.
+
+// the two sentinel errors are different objects (two `&sgError{...}` literals in base/error.go; never assigned)
+//@ pred verdictsDistinct() bool
+//@   is box(base.ErrConfigRegistryRollback) != box(base.ErrConfigVersionMismatch)
+
+// One attempt of getConfigVersionWithRetry (the retry worker). `config` is the document read in this attempt.
+//  - ErrConfigVersionMismatch ("the caller holds a stale registry, reload it") only when the stored config is
+//    STRICTLY newer than the requested version;
+//  - equal generation with a different version, an older config, or a missing document are the conditions that lead
+//    to the registry rollback (retry, then ErrConfigRegistryRollback), never a version mismatch;
+//  - a matching version returns that config.
+//@ func bootstrapContext.getConfigVersionWithRetry$1
+//@   modifies *
+//@   ensures[missing]        isDocNotFoundErr(callres(GetMetadataDocument, 1, 1)) ==> shouldRetry && err == box(base.ErrConfigRegistryRollback) && isNilErr(value)
+//@   ensures[storage-error]  !isDocNotFoundErr(callres(GetMetadataDocument, 1, 1)) && !isNilErr(callres(GetMetadataDocument, 1, 1)) ==> !shouldRetry && err == callres(GetMetadataDocument, 1, 1) && isNilErr(value)
+//@   ensures[match]          isNilErr(callres(GetMetadataDocument, 1, 1)) && version != invalidDatabaseConflictingCollectionsVersion && config.Version == version ==> !shouldRetry && isNilErr(err) && dynType(value) == typeTag(*DatabaseConfig) && unbox(value, *DatabaseConfig) == config
+//@   ensures[mismatch-only-newer] verdictsDistinct() && !isNilErr(value) && err == box(base.ErrConfigVersionMismatch) ==> pGen(config.Version) > pGen(version)
+//@   ensures[newer-is-mismatch]   isNilErr(callres(GetMetadataDocument, 1, 1)) && version != invalidDatabaseConflictingCollectionsVersion && config.Version != version && pGen(config.Version) > pGen(version) ==> !shouldRetry && err == box(base.ErrConfigVersionMismatch)
+//@   ensures[not-newer-is-rollback] isNilErr(callres(GetMetadataDocument, 1, 1)) && version != invalidDatabaseConflictingCollectionsVersion && config.Version != version && pGen(config.Version) <= pGen(version) ==> shouldRetry && err == box(base.ErrConfigRegistryRollback) && dynType(value) == typeTag(*DatabaseConfig) && unbox(value, *DatabaseConfig) == config
+
+// getConfigVersionWithRetry hands the retry loop's verdict through unchanged (err / retryResult are the results of
+// base.RetryLoop; that they are those of the last attempt of the worker above is the semantics of base.RetryLoop,
+// which is not modelled).
+//@ func bootstrapContext.getConfigVersionWithRetry
+//@   modifies *
+//@   ensures[verdict]     result0 != nil ==> result1 == err && dynType(retryResult) == typeTag(*DatabaseConfig) && result0 == unbox(retryResult, *DatabaseConfig)
+//@   ensures[no-config]   isNilErr(retryResult) ==> result0 == nil && result1 == err
+//@   ensures[rollback-kept] err == box(base.ErrConfigRegistryRollback) && (isNilErr(retryResult) || dynType(retryResult) == typeTag(*DatabaseConfig)) ==> result1 == box(base.ErrConfigRegistryRollback)
+//@   ensures[success]     isNilErr(result1) ==> isNilErr(err)
+
+// getDatabaseConfig: a rollback verdict always reaches rollbackRegistry; any other error (in particular a version
+// mismatch) is returned as it is, without touching the registry; a clean fetch returns the config.
+//@ func bootstrapContext.getDatabaseConfig
+//@   modifies *
+//@   only-contracts getConfigVersionWithRetry, IsCasMismatch
+//@   ensures[rollback-runs]  !called(rollbackRegistry, 1) ==> callres(getConfigVersionWithRetry, 1, 1) != box(base.ErrConfigRegistryRollback)
+//@   ensures[other-errors-surface] !called(rollbackRegistry, 1) && !isNilErr(callres(getConfigVersionWithRetry, 1, 1)) ==> result0 == nil && result1 == callres(getConfigVersionWithRetry, 1, 1)
+//@   ensures[clean]          isNilErr(callres(getConfigVersionWithRetry, 1, 1)) ==> result0 == callres(getConfigVersionWithRetry, 1, 0) && isNilErr(result1)
+//@   ensures[after-rollback] called(rollbackRegistry, 1) ==> result0 == nil && !isNilErr(result1) || (result0 == nil && result1 == box(base.ErrConfigRegistryReloadRequired))
+
+// rollbackRegistry: without a config document the entry is removed, with one the registry entry is rolled back to
+// it (after the CAS touch of the document); success means the registry document was written.
+//@ func bootstrapContext.rollbackRegistry
+//@   modifies *
+//@   only-contracts IsCasMismatch, Errorf
+//@   ensures[no-config-removes]   config == nil ==> called(removeDatabase, 1) && !called(rollbackDatabaseConfig, 1)
+//@   ensures[config-rolls-back]   config != nil && called(TouchMetadataDocument, 1) && isNilErr(callres(TouchMetadataDocument, 1, 1)) ==> called(rollbackDatabaseConfig, 1) && !called(removeDatabase, 1)
+//@   ensures[touch-failure-stops] config != nil && !isNilErr(callres(TouchMetadataDocument, 1, 1)) ==> !called(rollbackDatabaseConfig, 1) && !called(WriteMetadataDocument, 1) && !isNilErr(result)
+//@   ensures[persisted]           isNilErr(result) ==> called(WriteMetadataDocument, 1) && isNilErr(callres(WriteMetadataDocument, 1, 1))
+
+// ---------- delete markers are completed, never rolled back; finalize removes only the marker ----------
+
+// TRUSTED: getGatewayRegistry reads and decodes the registry document (storage + JSON; outside the subset). Assumed:
+// a successfully loaded registry is well-formed (no nil config group / database map / entry). JSON decoding allocates
+// an object for every non-null value, and the document is only ever written from registries maintained by the
+// functions above, which preserve regWF ([wf] clauses); a literal `null` group or entry in the stored document is the
+// only way to violate it.
+//@ func bootstrapContext.getGatewayRegistry
+//@   trusted
+//@   modifies *
+//@   ensures[well-formed] isNilErr(err) ==> regWF(result)
+
+// Finalize step of DeleteConfig ("an acknowledged change is never lost to a concurrent change"): it removes the entry
+// only if that entry still is the in-progress-delete marker; an entry re-created under the same name after the config
+// document was deleted belongs to that create and is left alone.
+//@ func bootstrapContext.DeleteConfig$2
+//@   modifies *
+//@   only-contracts getGatewayRegistry, getRegistryDatabase, IsDeleted, IsCasMismatch
+//@   before[removes-only-delete-marker] call removeDatabase#1 hasDb($0, $1, $2) ==> dbAt($0, $1, $2).IsDeleted()
+
+// A delete marker is never rolled back to a live entry (which would resurrect the database as an owner of the default
+// collection, its scopes having been dropped): waitForConfigDelete, the only handler of delete markers, asks
+// rollbackRegistry to REMOVE the entry (nil config); getRegistryAndDatabase and GetDatabaseConfigs hand only versions
+// of entries that are not delete markers to getDatabaseConfig, the only caller of rollbackRegistry with a config.
+// (This is what the Own clauses of rollbackDatabaseConfig assume about the entry.)
+//@ func bootstrapContext.waitForConfigDelete
+//@   modifies *
+//@   only-contracts IsDocNotFoundError
+//@   before[delete-is-completed] call rollbackRegistry#1 $5 == nil
+//@ func bootstrapContext.getRegistryAndDatabase
+//@   modifies *
+//@   only-contracts IsDeleted
+//@   before[marker-not-fetched] call getDatabaseConfig#1 $5 != deletedDatabaseVersion && $5 != ""
+//@ func bootstrapContext.GetDatabaseConfigs
+//@   modifies *
+//@   only-contracts IsDeleted
+//@   before[marker-not-fetched] call getDatabaseConfig#1 $5 != deletedDatabaseVersion
